@@ -2,13 +2,662 @@ import LdarModel.Lemmas.Propagate
 import LdarModel.Generated.Levels
 /-
 C15 — virtual-world parameters: most granular level wins, site totals are conserved.
+
+Model: `Model/Propagate.lean` (one function per method of infrastructure.py / sites.py /
+equipment_groups.py / component.py / sources.py; the propagating-parameter dictionary is passed from
+level to level exactly as the code does).  Key tables: `Generated/Levels.lean`, rewritten from the
+source on every run.  Helper lemmas: `Lemmas/Propagate.lean`.
+
+Contents
+  1. `resolve`: the most granular level that specifies a parameter wins, for every list of levels
+     (list induction, not an enumeration of the 2⁵ subsets); unspecified levels are neutral.
+  2. Obligations over the generated key tables (`decide`): every propagating parameter uses the same
+     key at every level where it may be specified; the un-prefixing rule of the source level maps each
+     prefixed key to the key the source reads and to no other.
+  3. The dictionary-passing model equals the `resolve` closed form at every source, equipment group
+     and site (for all rows, under well-formedness of the tables).
+  4. Quantities given per site (production rate, survey time, survey cost) add back up (ℚ).
+  5. Exactly `n` distinct sites with the structure the files describe.
+  6. `C15_statement` and its proof.
 -/
 namespace LdarModel.Propagate
 open LdarModel.Generated.Levels
 
+/-! ## 1. most granular wins -/
+
+/-- the value of the last level that specifies the parameter is the one in effect, whatever the
+less granular levels (`pre`) say and however many unspecified levels follow -/
+theorem most_granular_wins {V : Type} (pre post : List (Option V)) (v g : V)
+    (h : ∀ o ∈ post, o = none) : resolve (pre ++ some v :: post) g = v := by
+  rw [resolve_append, resolve_cons]
+  exact resolve_all_none post _ h
+
+/-- no level specifies it: the global value stays in effect -/
+theorem most_granular_wins_global {V : Type} (levels : List (Option V)) (g : V)
+    (h : ∀ o ∈ levels, o = none) : resolve levels g = g :=
+  resolve_all_none levels g h
+
+/-- the same as one equation, for every list of levels: scanning from the most granular end, the
+first specified value, else the global one -/
+theorem resolve_eq_last_specified {V : Type} (levels : List (Option V)) (g : V) :
+    resolve levels g = (levels.reverse.findSome? id).getD g := by
+  induction levels generalizing g with
+  | nil => rfl
+  | cons o l ih =>
+    rw [resolve_cons, ih, List.reverse_cons, List.findSome?_append]
+    cases h : l.reverse.findSome? id with
+    | some v => simp
+    | none => cases o <;> simp
+
+/-- a level that does not specify the parameter leaves it untouched, wherever it sits in the chain -/
+theorem unspecified_is_identity {V : Type} (l1 l2 : List (Option V)) (g : V) :
+    resolve (l1 ++ none :: l2) g = resolve (l1 ++ l2) g := by
+  simp [resolve_append]
+
+/-- a more granular level is never overridden by a less granular one -/
+theorem granular_overrides_coarse {V : Type} (coarse : List (Option V)) (v g g' : V)
+    (fine : List (Option V)) :
+    resolve (coarse ++ some v :: fine) g = resolve (some v :: fine) g' := by
+  rw [resolve_append]
+  simp
+
+/-! ## 2. obligations over the generated tables -/
+
+/-- every propagating parameter uses the same key at every level where it may be specified
+(global mapping, site type file, sites file, equipment file; method-specific ones likewise) -/
 theorem tables_same_key_every_level : tables.SameKeys := by decide
+
+/-- the scaled entries are the two production rates (the ones the component split divides) and
+survey time / cost; each is listed once -/
 theorem tables_scaled_entries : tables.ScaleOK := by decide
+
+/-- what the site and the equipment group take out of the method-specific dictionary -/
 theorem tables_pops : tables.PopsOK := by decide
+
+/-- the un-prefixing rule of `Source._update_prop_params` maps each prefixed key to the key the source
+reads, no other key of the dictionary to that key, and never writes a prefixed key -/
 theorem tables_unprefix_rule : tables.UnprefixOK := by decide
+
+theorem tables_wf : tables.WF :=
+  ⟨tables_same_key_every_level, tables_scaled_entries, tables_pops, tables_unprefix_rule⟩
+
+/-- constant by constant: the key of a plain propagating parameter is the same in the site type file,
+the sites file and the equipment file, and all three levels have it -/
+theorem tables_level_keys_agree :
+    ∀ r ∈ levelKeys, r.2.1.isSome = true ∧ r.2.1 = r.2.2.1 ∧ r.2.2.1 = r.2.2.2 := by decide
+
+/-- constant by constant: wherever a level has a method-specific parameter, its suffix is the one of
+the sites file -/
+theorem tables_level_meth_keys_agree :
+    ∀ r ∈ levelMethKeys,
+      r.2.2.1.isSome = true ∧ r.2.1 = r.2.2.1 ∧
+      (r.2.2.2.1.isSome = true → r.2.2.2.1 = r.2.2.1) ∧
+      (r.2.2.2.2.isSome = true → r.2.2.2.2 = r.2.2.1) := by decide
+
+/-- the per-constant table and the loop lists describe the same keys -/
+theorem tables_level_keys_cover :
+    (∀ k ∈ tables.sitePlain, ∃ r ∈ levelKeys, r.2.2.1 = some k) ∧
+    (∀ r ∈ levelKeys, ∀ k, r.2.2.1 = some k → k ∈ tables.sitePlain) := by decide
+
+/-- every plain propagating parameter has an access path into the virtual-world parameters, every
+method-specific one into the method parameters -/
+theorem tables_global_paths :
+    globalPlainPaths.map (·.1) = tables.globalPlain ∧ globalMethPaths.map (·.1) = tables.globalMeth := by
+  decide
+
+/-! ## 3. the model of the code equals the closed form -/
+
+/-- the levels of one chain, for the column `c`: site type (if any), site, equipment group -/
+def upper (T : Option Row) (S E : Row) (c : String) : List (Option PV) :=
+  [typeGet T c, S.get? c, E.get? c]
+
+/-- what the levels prescribe for the key `sk` a source reads (`pre` = the source's prefix): scaled
+entries are divided by the number of groups below the site and by the number of components below
+the group, everything else is handed down unchanged -/
+def specPlain (tb : Tables) (G : Dict String) (T : Option Row) (S E R : Row) (nG nC : Nat)
+    (pre sk : String) : PV :=
+  if pre ++ sk ∈ tb.scalePlain then
+    resolve [R.get? sk]
+      ((resolve [E.get? (pre ++ sk)]
+        ((resolve [typeGet T (pre ++ sk), S.get? (pre ++ sk)] (G.get (pre ++ sk))).divNat nG)).divPos nC)
+  else
+    resolve (upper T S E (pre ++ sk) ++ [R.get? sk]) (G.get (pre ++ sk))
+
+/-- every key the source level reads, for every site type / site / equipment / source row: the
+dictionary-passing model yields the value prescribed by the chain of levels -/
+theorem source_key_spec (tb : Tables) (hw : tb.WF) (methods : List String) (G : Dict String)
+    (Gm : Dict MKey) (T : Option Row) (S E R : Row) (nG : Nat) (rep : Bool) (sk : String)
+    (hsk : sk ∈ tb.srcKeysFor rep) :
+    (unprefixLoop (tb.prefixOf rep) R (compCtx tb methods G Gm T S E nG)).get sk
+      = specPlain tb G T S E R nG (totalComponents tb E) (tb.prefixOf rep) sk := by
+  obtain ⟨hsame, hscale, _, hun⟩ := hw
+  obtain ⟨hkey, hin, hu, h2, h3⟩ := hun rep (by cases rep <;> simp) sk hsk
+  rw [get_unprefixLoop (tb.prefixOf rep) R _ sk (tb.prefixOf rep ++ sk) hu hin
+        ((keys_compCtx tb hsame hscale methods G Gm T S E nG _).mpr hkey)
+        (fun k' hk' => h2 k' ((keys_compCtx tb hsame hscale methods G Gm T S E nG k').mp hk'))
+        (fun k' hk' => h3 k' ((keys_compCtx tb hsame hscale methods G Gm T S E nG k').mp hk'))]
+  rw [get_compCtx tb hsame hscale methods G Gm T S E nG _ hkey]
+  unfold specPlain upper
+  by_cases hsc : tb.prefixOf rep ++ sk ∈ tb.scalePlain
+  · simp [hsc]
+  · simp [hsc]
+
+theorem not_scaled_of_ne (tb : Tables) (hw : tb.WF) (rep : Bool) (sk : String)
+    (hsk : sk ∈ tb.srcKeysFor rep) (hne : sk ≠ tb.srcEpr) :
+    tb.prefixOf rep ++ sk ∉ tb.scalePlain := by
+  have := hw.2.1.named.scaledIff rep (by cases rep <;> simp) sk hsk
+  exact fun h => hne (this.mp h)
+
+/-- **most granular level wins at the source**: rate source, duration, multiple-emissions flag and
+(repairable sources) repair delay and cost in effect at a source are those of the most granular of
+source row, equipment row, site row, site type row that specifies them, else the global value -/
+theorem source_most_granular_wins (tb : Tables) (hw : tb.WF) (methods : List String)
+    (G : Dict String) (Gm : Dict MKey) (T : Option Row) (S E R : Row) (nG : Nat) (sid : String)
+    (rep : Bool) (m : Dict MKey) :
+    let s := sourceEff tb methods sid rep R (compCtx tb methods G Gm T S E nG) m
+    let chain := fun sk => resolve (upper T S E (tb.prefixOf rep ++ sk) ++ [R.get? sk])
+                              (G.get (tb.prefixOf rep ++ sk))
+    s.ers = chain tb.srcErs ∧ s.dur = chain tb.srcDur ∧ s.multi = chain tb.srcMulti ∧
+    (rep = true → s.rd = chain tb.srcRd ∧ s.rc = chain tb.srcRc) ∧
+    (rep = false → s.rd = .nul ∧ s.rc = .nul) := by
+  intro s chain
+  have hp := hw.2.2.1.named
+  have key : ∀ sk, sk ∈ tb.srcKeysFor rep → sk ≠ tb.srcEpr →
+      (unprefixLoop (tb.prefixOf rep) R (compCtx tb methods G Gm T S E nG)).get sk = chain sk := by
+    intro sk hsk hne
+    rw [source_key_spec tb hw methods G Gm T S E R nG rep sk hsk]
+    unfold specPlain
+    rw [if_neg (not_scaled_of_ne tb hw rep sk hsk hne)]
+  have e1 : tb.srcErs ∈ tb.srcKeysFor rep := by simp [Tables.srcKeysFor]
+  have e2 : tb.srcDur ∈ tb.srcKeysFor rep := by simp [Tables.srcKeysFor]
+  have e3 : tb.srcMulti ∈ tb.srcKeysFor rep := by simp [Tables.srcKeysFor]
+  refine ⟨key _ e1 hp.ersNe, key _ e2 hp.durNe, key _ e3 hp.multiNe, ?_, ?_⟩
+  · intro hr
+    subst hr
+    have e4 : tb.srcRd ∈ tb.srcKeysFor true := by simp [Tables.srcKeysFor]
+    have e5 : tb.srcRc ∈ tb.srcKeysFor true := by simp [Tables.srcKeysFor]
+    exact ⟨key _ e4 hp.rdNe, key _ e5 hp.rcNe⟩
+  · intro hr
+    subst hr
+    exact ⟨rfl, rfl⟩
+
+/-- the production rate in effect at a source: the site's value (most granular of site, site type,
+global) divided by the number of equipment groups, replaced by the equipment row's value if given,
+divided by the group's component count when positive, replaced by the source row's value if given -/
+theorem source_production_rate_spec (tb : Tables) (hw : tb.WF) (methods : List String)
+    (G : Dict String) (Gm : Dict MKey) (T : Option Row) (S E R : Row) (nG : Nat) (sid : String)
+    (rep : Bool) (m : Dict MKey) :
+    (sourceEff tb methods sid rep R (compCtx tb methods G Gm T S E nG) m).epr
+      = resolve [R.get? tb.srcEpr]
+          ((resolve [E.get? (tb.prefixOf rep ++ tb.srcEpr)]
+            ((resolve [typeGet T (tb.prefixOf rep ++ tb.srcEpr), S.get? (tb.prefixOf rep ++ tb.srcEpr)]
+                (G.get (tb.prefixOf rep ++ tb.srcEpr))).divNat nG)).divPos (totalComponents tb E)) := by
+  have e : tb.srcEpr ∈ tb.srcKeysFor rep := by simp [Tables.srcKeysFor]
+  have hsc : tb.prefixOf rep ++ tb.srcEpr ∈ tb.scalePlain :=
+    (hw.2.1.named.scaledIff rep (by cases rep <;> simp) _ e).mpr rfl
+  show (unprefixLoop (tb.prefixOf rep) R (compCtx tb methods G Gm T S E nG)).get tb.srcEpr = _
+  rw [source_key_spec tb hw methods G Gm T S E R nG rep _ e]
+  unfold specPlain
+  rw [if_pos hsc]
+
+/-- spatial and temporal coverage of every method at a source: most granular of source row,
+equipment row, site row, site type row, else the method's parameter file -/
+theorem source_coverage_most_granular_wins (tb : Tables) (hw : tb.WF) (methods : List String)
+    (G : Dict String) (Gm : Dict MKey) (T : Option Row) (S E R : Row) (nG : Nat) (sid : String)
+    (rep : Bool) (d : Dict String) :
+    let s := sourceEff tb methods sid rep R d (groupCtx tb methods G Gm T S E nG).2
+    s.spatial = methods.map (fun me =>
+        resolve (upper T S E (me ++ tb.srcSpatial) ++ [R.get? (me ++ tb.srcSpatial)]) (Gm.get (me, tb.srcSpatial)))
+    ∧ s.temporal = methods.map (fun me =>
+        resolve (upper T S E (me ++ tb.srcTemporal) ++ [R.get? (me ++ tb.srcTemporal)]) (Gm.get (me, tb.srcTemporal))) := by
+  intro s
+  obtain ⟨hsame, _, hp0, _⟩ := hw
+  have hp := hp0.named
+  have one : ∀ p, p ∈ tb.globalMeth → p ∈ tb.sourceMeth → p ∉ tb.scaleMeth → ∀ me ∈ methods,
+      (updFrom MKey.col (methKeys methods tb.sourceMeth) R (groupCtx tb methods G Gm T S E nG).2).get (me, p)
+        = resolve (upper T S E (me ++ p) ++ [R.get? (me ++ p)]) (Gm.get (me, p)) := by
+    intro p hpg hps hpn me hme
+    have hpgm : p ∈ tb.groupMeth := (List.mem_filter.mp hps).1
+    rw [get_updFrom]
+    have hm : ((me, p) : MKey) ∈ methKeys methods tb.sourceMeth := (mem_methKeys _ _ _ _).mpr ⟨hme, hps⟩
+    simp only [hm, if_true, MKey.col]
+    rw [get_groupMeth tb hsame methods G Gm T S E nG me p hme hpgm]
+    simp [upper, hpn, globalMethVal, hpg]
+  constructor
+  · exact List.map_congr_left (one tb.srcSpatial hp.spG hp.spSrc hp.spNotScaled)
+  · exact List.map_congr_left (one tb.srcTemporal hp.tmG hp.tmSrc hp.tmNotScaled)
+
+/-- the equipment group `gid` (equipment row `E`) of a site with site row `S`, site type row `T`,
+when the site has `nG` groups: exactly the call `Site._create_equipment_groups` makes -/
+def groupAt (tb : Tables) (methods : List String) (files : Files) (G : Dict String) (Gm : Dict MKey)
+    (T : Option Row) (S : Row) (gid : String) (E : Row) (nG : Nat) : GroupEff :=
+  buildGroup tb methods files gid E
+    (scaleKeys tb.scalePlain nG (siteDicts tb methods G Gm T S).1)
+    (scaleKeys (methKeys methods tb.scaleMeth) nG (siteDicts tb methods G Gm T S).2)
+
+/-- site type row of a site (`none` without a site type file) -/
+def typeRowOf (files : Files) (s : SiteRow) : Option Row := (findType files s).map (·.cells)
+
+/-- the groups of a site as the files describe them: (id, equipment row, divisor) -/
+def groupsOf (tb : Tables) (methods : List String) (G : Dict String) (Gm : Dict MKey) (files : Files)
+    (s : SiteRow) : List (String × Row × Nat) :=
+  siteGroups tb files (equipFor files s (findType files s))
+    (siteDicts tb methods G Gm (typeRowOf files s) s.cells).1
+
+theorem buildSite_groups (tb : Tables) (methods : List String) (G : Dict String) (Gm : Dict MKey)
+    (files : Files) (s : SiteRow) :
+    (buildSite tb methods G Gm files s).groups
+      = (groupsOf tb methods G Gm files s).map (fun g =>
+          groupAt tb methods files G Gm (typeRowOf files s) s.cells g.1 g.2.1 g.2.2) := rfl
+
+theorem groupAt_comps (tb : Tables) (methods : List String) (files : Files) (G : Dict String)
+    (Gm : Dict MKey) (T : Option Row) (S : Row) (gid : String) (E : Row) (nG : Nat) :
+    (groupAt tb methods files G Gm T S gid E nG).comps
+      = (cleanedCells tb E).flatMap (fun c => (List.range (cellCount c.2)).map (fun i =>
+          { cid := compType c.1 ++ "_" ++ toString i,
+            repRate := (compCtx tb methods G Gm T S E nG).get tb.eqRepEpr,
+            nonRate := (compCtx tb methods G Gm T S E nG).get tb.eqNonRepEpr,
+            sources := componentSources tb methods files (compType c.1)
+                         (compCtx tb methods G Gm T S E nG) (groupCtx tb methods G Gm T S E nG).2 })) := rfl
+
+/-- survey time and cost of an equipment group, per method: the equipment row's value if given, else
+the site's value (most granular of site, site type, method file) divided by the number of groups -/
+theorem group_survey_spec (tb : Tables) (hw : tb.WF) (methods : List String) (files : Files)
+    (G : Dict String) (Gm : Dict MKey) (T : Option Row) (S : Row) (gid : String) (E : Row) (nG : Nat) :
+    let g := groupAt tb methods files G Gm T S gid E nG
+    let spec := fun p me => resolve [E.get? (me ++ p)]
+        ((resolve [typeGet T (me ++ p), S.get? (me ++ p)] (Gm.get (me, p))).divNat nG)
+    g.gid = gid ∧ g.times = methods.map (spec tb.eqTimeKey) ∧ g.costs = methods.map (spec tb.eqCostKey) := by
+  intro g spec
+  obtain ⟨hsame, hs0, hp0, _⟩ := hw
+  have hp := hp0.named
+  have hs := hs0.named
+  have one : ∀ p, p ∈ tb.globalMeth → p ∈ tb.groupMeth → p ∈ tb.scaleMeth → ∀ me ∈ methods,
+      (groupCtx tb methods G Gm T S E nG).2.get (me, p) = spec p me := by
+    intro p hpg hpgm hpsc me hme
+    rw [get_groupMeth tb hsame methods G Gm T S E nG me p hme hpgm]
+    simp [spec, hpsc, globalMethVal, hpg]
+  refine ⟨rfl, ?_, ?_⟩
+  · exact List.map_congr_left (one tb.eqTimeKey hp.timeG hp.timeGrp hs.timeIn)
+  · exact List.map_congr_left (one tb.eqCostKey hp.costG hp.costGrp hs.costIn)
+
+/-- survey frequency, deployment months / years and site deployment of a site, per method: most
+granular of site row and site type row, else the method's parameter file (site deployment: `True`) -/
+theorem site_most_granular_wins (tb : Tables) (hw : tb.WF) (methods : List String)
+    (G : Dict String) (Gm : Dict MKey) (files : Files) (s : SiteRow) :
+    let site := buildSite tb methods G Gm files s
+    let T := typeRowOf files s
+    let spec := fun p g me => resolve [typeGet T (me ++ p), s.cells.get? (me ++ p)] (g me)
+    site.sid = s.sid ∧ site.stype = s.stype ∧
+    site.freq = methods.map (spec tb.freqKey (fun me => Gm.get (me, tb.freqKey))) ∧
+    site.months = methods.map (spec tb.monthsKey (fun me => Gm.get (me, tb.monthsKey))) ∧
+    site.years = methods.map (spec tb.yearsKey (fun me => Gm.get (me, tb.yearsKey))) ∧
+    site.deploy = methods.map (spec tb.siteDeploy (fun _ => PV.tru)) := by
+  intro site T spec
+  obtain ⟨hsame, _, hp0, _⟩ := hw
+  have hp := hp0.named
+  have inAll : ∀ p, p ∈ tb.globalMeth → p ∈ tb.allMeth := by
+    intro p h; simp [Tables.allMeth, h]
+  have one : ∀ p, p ∈ tb.globalMeth → ∀ me ∈ methods,
+      (siteDicts tb methods G Gm T s.cells).2.get (me, p) = spec p (fun me => Gm.get (me, p)) me := by
+    intro p hpg me hme
+    rw [get_siteMeth tb hsame methods G Gm T s.cells me p hme (inAll p hpg)]
+    simp [spec, globalMethVal, hpg]
+  have dep : ∀ me ∈ methods,
+      (siteDicts tb methods G Gm T s.cells).2.get (me, tb.deployKey) = spec tb.siteDeploy (fun _ => PV.tru) me := by
+    intro me hme
+    rw [hp.deployEq, get_siteMeth tb hsame methods G Gm T s.cells me tb.siteDeploy hme
+      (by simp [Tables.allMeth])]
+    simp [spec, globalMethVal, hp.deployNotG]
+  exact ⟨rfl, rfl, List.map_congr_left (one _ hp.freqG), List.map_congr_left (one _ hp.monthsG),
+    List.map_congr_left (one _ hp.yearsG), List.map_congr_left dep⟩
+
+/-! ## 4. quantities given per site add back up -/
+
+/-- arithmetic of the split: a site value `x` divided by the number of groups and, in each group, by
+that group's number of components, summed over all components of all groups, is `x` again (ℚ) -/
+theorem split_conserved (x : Rat) (cs : List Nat) (hne : cs ≠ []) (hpos : ∀ c ∈ cs, c ≠ 0) :
+    (cs.map (fun c => (List.replicate c (x / (cs.length : Rat) / (c : Rat))).sum)).sum = x := by
+  have hlen : cs.length ≠ 0 := by
+    intro h; exact hne (List.length_eq_zero_iff.mp h)
+  have h1 : ∀ c ∈ cs, (List.replicate c (x / (cs.length : Rat) / (c : Rat))).sum = x / (cs.length : Rat) := by
+    intro c hc
+    have hcr : (c : Rat) ≠ 0 := by exact_mod_cast hpos c hc
+    rw [sum_replicate_rat]
+    grind
+  rw [sum_map_eq_const cs _ _ h1]
+  exact mul_div_cancel_nat x cs.length hlen
+
+/-- the placeholder split: `k` groups of `⌈c/k⌉` placeholder components each -/
+theorem placeholder_split_conserved (x : Rat) (k m : Nat) (hk : k ≠ 0) (hm : m ≠ 0) :
+    ((List.replicate k m).map (fun c => (List.replicate c (x / (k : Rat) / (c : Rat))).sum)).sum = x := by
+  have := split_conserved x (List.replicate k m)
+    (by intro h; exact hk (by simpa using congrArg List.length h))
+    (by intro c hc; rw [(List.mem_replicate.mp hc).2]; exact hm)
+  simpa using this
+
+/-- survey time and cost: the site value split over `n` groups adds back up -/
+theorem survey_split_conserved (x : Rat) (n : Nat) (hn : n ≠ 0) :
+    (List.replicate n (x / (n : Rat))).sum = x := by
+  rw [sum_replicate_rat]
+  exact mul_div_cancel_nat x n hn
+
+/-- a site's equipment groups do not override `col` -/
+def NoGroupOverride (gs : List (String × Row × Nat)) (col : String) : Prop :=
+  ∀ g ∈ gs, g.2.1.get? col = none
+
+/-- **production rate conserved in the model of the code**: for a site whose equipment rows do not
+override the rate, the rates the components hand to their sources add up, over all components of all
+equipment groups, to the site's value (repairable rate; `…_nonrep` for the other one) -/
+theorem site_production_rate_conserved (tb : Tables) (hw : tb.WF) (methods : List String)
+    (G : Dict String) (Gm : Dict MKey) (files : Files) (s : SiteRow) (x : Rat) (hx : 0 ≤ x)
+    (hsite : resolve [typeGet (typeRowOf files s) tb.eqRepEpr, s.cells.get? tb.eqRepEpr] (G.get tb.eqRepEpr) = .num x)
+    (hgs : groupsOf tb methods G Gm files s ≠ [])
+    (hno : NoGroupOverride (groupsOf tb methods G Gm files s) tb.eqRepEpr)
+    (hcomp : ∀ g ∈ groupsOf tb methods G Gm files s, totalComponents tb g.2.1 ≠ 0) :
+    ((buildSite tb methods G Gm files s).groups.map
+        (fun g => (g.comps.map (fun c => numOf c.repRate)).sum)).sum = x := by
+  obtain ⟨hsame, hs0, _, _⟩ := hw
+  have hs := hs0.named
+  rw [buildSite_groups, List.map_map]
+  have hlen : (groupsOf tb methods G Gm files s).length ≠ 0 := by
+    intro h; exact hgs (List.length_eq_zero_iff.mp h)
+  have each : ∀ g ∈ groupsOf tb methods G Gm files s,
+      ((fun g : GroupEff => (g.comps.map (fun c => numOf c.repRate)).sum) ∘
+        (fun g => groupAt tb methods files G Gm (typeRowOf files s) s.cells g.1 g.2.1 g.2.2)) g
+        = x / ((groupsOf tb methods G Gm files s).length : Rat) := by
+    intro g hg
+    have hdiv : g.2.2 = (groupsOf tb methods G Gm files s).length := siteGroups_divisor _ _ _ _ g hg
+    simp only [Function.comp]
+    rw [groupAt_comps]
+    have hval : (compCtx tb methods G Gm (typeRowOf files s) s.cells g.2.1 g.2.2).get tb.eqRepEpr
+        = ((PV.num x).divNat g.2.2).divPos (totalComponents tb g.2.1) := by
+      rw [get_compCtx tb hsame hs0 methods G Gm _ _ _ _ _ hs.repG]
+      simp only [hs.repIn, if_true, resolve_cons, resolve_nil, hno g hg, Option.getD_none]
+      have := hsite
+      simp only [resolve_cons, resolve_nil] at this
+      rw [this]
+    rw [sum_map_eq_const _ _ (numOf (((PV.num x).divNat g.2.2).divPos (totalComponents tb g.2.1)))]
+    · rw [length_flatMap_range]
+      have : ((cleanedCells tb g.2.1).map (fun c => cellCount c.2)).sum = totalComponents tb g.2.1 := rfl
+      rw [this, comp_split x g.2.2 _ (by rw [hdiv]; exact hlen) (hcomp g hg) hx, hdiv]
+    · intro c hc
+      simp only [List.mem_flatMap, List.mem_map] at hc
+      obtain ⟨_, _, _, _, hc⟩ := hc
+      rw [← hc, hval]
+  rw [sum_map_eq_const _ _ _ each]
+  exact mul_div_cancel_nat x _ hlen
+
+theorem site_production_rate_conserved_nonrep (tb : Tables) (hw : tb.WF) (methods : List String)
+    (G : Dict String) (Gm : Dict MKey) (files : Files) (s : SiteRow) (x : Rat) (hx : 0 ≤ x)
+    (hsite : resolve [typeGet (typeRowOf files s) tb.eqNonRepEpr, s.cells.get? tb.eqNonRepEpr] (G.get tb.eqNonRepEpr) = .num x)
+    (hgs : groupsOf tb methods G Gm files s ≠ [])
+    (hno : NoGroupOverride (groupsOf tb methods G Gm files s) tb.eqNonRepEpr)
+    (hcomp : ∀ g ∈ groupsOf tb methods G Gm files s, totalComponents tb g.2.1 ≠ 0) :
+    ((buildSite tb methods G Gm files s).groups.map
+        (fun g => (g.comps.map (fun c => numOf c.nonRate)).sum)).sum = x := by
+  obtain ⟨hsame, hs0, _, _⟩ := hw
+  have hs := hs0.named
+  rw [buildSite_groups, List.map_map]
+  have hlen : (groupsOf tb methods G Gm files s).length ≠ 0 := by
+    intro h; exact hgs (List.length_eq_zero_iff.mp h)
+  have each : ∀ g ∈ groupsOf tb methods G Gm files s,
+      ((fun g : GroupEff => (g.comps.map (fun c => numOf c.nonRate)).sum) ∘
+        (fun g => groupAt tb methods files G Gm (typeRowOf files s) s.cells g.1 g.2.1 g.2.2)) g
+        = x / ((groupsOf tb methods G Gm files s).length : Rat) := by
+    intro g hg
+    have hdiv : g.2.2 = (groupsOf tb methods G Gm files s).length := siteGroups_divisor _ _ _ _ g hg
+    simp only [Function.comp]
+    rw [groupAt_comps]
+    have hval : (compCtx tb methods G Gm (typeRowOf files s) s.cells g.2.1 g.2.2).get tb.eqNonRepEpr
+        = ((PV.num x).divNat g.2.2).divPos (totalComponents tb g.2.1) := by
+      rw [get_compCtx tb hsame hs0 methods G Gm _ _ _ _ _ hs.nonG]
+      simp only [hs.nonIn, if_true, resolve_cons, resolve_nil, hno g hg, Option.getD_none]
+      have := hsite
+      simp only [resolve_cons, resolve_nil] at this
+      rw [this]
+    rw [sum_map_eq_const _ _ (numOf (((PV.num x).divNat g.2.2).divPos (totalComponents tb g.2.1)))]
+    · rw [length_flatMap_range]
+      have : ((cleanedCells tb g.2.1).map (fun c => cellCount c.2)).sum = totalComponents tb g.2.1 := rfl
+      rw [this, comp_split x g.2.2 _ (by rw [hdiv]; exact hlen) (hcomp g hg) hx, hdiv]
+    · intro c hc
+      simp only [List.mem_flatMap, List.mem_map] at hc
+      obtain ⟨_, _, _, _, hc⟩ := hc
+      rw [← hc, hval]
+  rw [sum_map_eq_const _ _ _ each]
+  exact mul_div_cancel_nat x _ hlen
+
+private theorem getD_map_range {β : Type} (n i : Nat) (hi : i < n) (f : Nat → β) (d : β) :
+    ((List.range n).map f).getD i d = f i := by
+  simp [List.getD_eq_getElem?_getD, hi]
+
+private theorem getD_map_get {α β : Type} (l : List α) (f : α → β) (i : Nat) (hi : i < l.length) (d : β) :
+    (l.map f).getD i d = f l[i] := by
+  simp [List.getD_eq_getElem?_getD, hi]
+
+/-- the per-group survey values of method number `i`, when no equipment row overrides them: the site
+value divided by the number of groups, in every group -/
+private theorem group_values_no_override (tb : Tables) (hw : tb.WF) (methods : List String)
+    (G : Dict String) (Gm : Dict MKey) (files : Files) (s : SiteRow) (i : Nat)
+    (hi : i < methods.length) (x : Rat) (p : String) (hp : p = tb.eqTimeKey ∨ p = tb.eqCostKey)
+    (hsite : resolve [typeGet (typeRowOf files s) (methods[i] ++ p), s.cells.get? (methods[i] ++ p)]
+                (Gm.get (methods[i], p)) = .num x)
+    (hno : NoGroupOverride (groupsOf tb methods G Gm files s) (methods[i] ++ p)) :
+    (buildSite tb methods G Gm files s).groups.map
+        (fun g => (if p = tb.eqTimeKey then g.times else g.costs).getD i .nul)
+      = ((groupsOf tb methods G Gm files s).map
+          (fun _ => x / ((groupsOf tb methods G Gm files s).length : Rat))).map PV.num := by
+  rw [buildSite_groups, List.map_map, List.map_map]
+  apply List.map_congr_left
+  intro g hg
+  have hdiv : g.2.2 = (groupsOf tb methods G Gm files s).length := siteGroups_divisor _ _ _ _ g hg
+  have hspec := group_survey_spec tb hw methods files G Gm (typeRowOf files s) s.cells g.1 g.2.1 g.2.2
+  simp only at hspec
+  simp only [Function.comp]
+  have hsite' := hsite
+  simp only [resolve_cons, resolve_nil] at hsite'
+  rcases hp with hp | hp
+  · subst hp
+    simp only [if_true]
+    rw [hspec.2.1, getD_map_get _ _ _ hi]
+    simp only [resolve_cons, resolve_nil, hno g hg, Option.getD_none, hsite', PV.divNat, hdiv]
+  · by_cases hpt : p = tb.eqTimeKey
+    · subst hpt
+      simp only [if_true]
+      rw [hspec.2.1, getD_map_get _ _ _ hi]
+      simp only [resolve_cons, resolve_nil, hno g hg, Option.getD_none, hsite', PV.divNat, hdiv]
+    · subst hp
+      simp only [hpt, if_false]
+      rw [hspec.2.2, getD_map_get _ _ _ hi]
+      simp only [resolve_cons, resolve_nil, hno g hg, Option.getD_none, hsite', PV.divNat, hdiv]
+
+/-- **survey cost conserved**: without equipment-level overrides the site's survey cost for a method
+is the site-level value again (`Σ groups (x / n) = x`) -/
+theorem site_cost_conserved (tb : Tables) (hw : tb.WF) (methods : List String)
+    (G : Dict String) (Gm : Dict MKey) (files : Files) (s : SiteRow) (i : Nat)
+    (hi : i < methods.length) (x : Rat)
+    (hsite : resolve [typeGet (typeRowOf files s) (methods[i] ++ tb.eqCostKey),
+                      s.cells.get? (methods[i] ++ tb.eqCostKey)] (Gm.get (methods[i], tb.eqCostKey)) = .num x)
+    (hgs : groupsOf tb methods G Gm files s ≠ [])
+    (hno : NoGroupOverride (groupsOf tb methods G Gm files s) (methods[i] ++ tb.eqCostKey)) :
+    (buildSite tb methods G Gm files s).cost.getD i .nul = .num x := by
+  have hlen : (groupsOf tb methods G Gm files s).length ≠ 0 := by
+    intro h; exact hgs (List.length_eq_zero_iff.mp h)
+  have hv := group_values_no_override tb hw methods G Gm files s i hi x tb.eqCostKey (Or.inr rfl) hsite hno
+  show ((List.range methods.length).map (siteCost (buildSite tb methods G Gm files s).groups)).getD i .nul = _
+  rw [getD_map_range _ _ hi]
+  unfold siteCost
+  by_cases hpt : tb.eqCostKey = tb.eqTimeKey
+  · simp only [hpt, if_true] at hv
+    have hgrp : ∀ g ∈ (buildSite tb methods G Gm files s).groups, g.costs.getD i .nul = g.times.getD i .nul := by
+      intro g hg
+      rw [buildSite_groups] at hg
+      obtain ⟨g0, _, hg0⟩ := List.mem_map.mp hg
+      have := group_survey_spec tb hw methods files G Gm (typeRowOf files s) s.cells g0.1 g0.2.1 g0.2.2
+      simp only at this
+      rw [← hg0, this.2.1, this.2.2, hpt]
+    rw [List.map_congr_left hgrp, hv, sumPV_nums, sum_map_const_rat, mul_div_cancel_nat x _ hlen]
+  · simp only [hpt, if_false] at hv
+    rw [hv, sumPV_nums, sum_map_const_rat, mul_div_cancel_nat x _ hlen]
+
+/-- **survey time conserved**: without equipment-level overrides the site's survey time for a method
+is the site-level value, rounded as `get_method_survey_time` rounds it -/
+theorem site_time_conserved (tb : Tables) (hw : tb.WF) (methods : List String)
+    (G : Dict String) (Gm : Dict MKey) (files : Files) (s : SiteRow) (i : Nat)
+    (hi : i < methods.length) (x : Rat)
+    (hsite : resolve [typeGet (typeRowOf files s) (methods[i] ++ tb.eqTimeKey),
+                      s.cells.get? (methods[i] ++ tb.eqTimeKey)] (Gm.get (methods[i], tb.eqTimeKey)) = .num x)
+    (hgs : groupsOf tb methods G Gm files s ≠ [])
+    (hno : NoGroupOverride (groupsOf tb methods G Gm files s) (methods[i] ++ tb.eqTimeKey)) :
+    (buildSite tb methods G Gm files s).time.getD i none = some (roundHalfEven x) := by
+  have hlen : (groupsOf tb methods G Gm files s).length ≠ 0 := by
+    intro h; exact hgs (List.length_eq_zero_iff.mp h)
+  have hv := group_values_no_override tb hw methods G Gm files s i hi x tb.eqTimeKey (Or.inl rfl) hsite hno
+  simp only [if_true] at hv
+  show ((List.range methods.length).map (siteTime (buildSite tb methods G Gm files s).groups)).getD i none = _
+  rw [getD_map_range _ _ hi]
+  unfold siteTime
+  rw [hv, sumPV_nums, sum_map_const_rat, mul_div_cancel_nat x _ hlen]
+  rfl
+
+/-! ## 5. exactly `n` distinct sites with the structure the files describe -/
+
+/-- the world has exactly one site per sampled row: `n` sites for a sample of size `n` -/
+theorem site_count (tb : Tables) (methods : List String) (G : Dict String) (Gm : Dict MKey)
+    (files : Files) (picks : List Nat) (n : Nat) (h : ValidPicks files.sites.length n picks) :
+    (buildWorld tb methods G Gm files picks).length = n := by
+  simp [buildWorld, h.1]
+
+/-- the sites of the world are the sampled rows of the sites file, in the sampled order -/
+theorem site_ids (tb : Tables) (methods : List String) (G : Dict String) (Gm : Dict MKey)
+    (files : Files) (picks : List Nat) :
+    (buildWorld tb methods G Gm files picks).map (fun s => (s.sid, s.stype))
+      = picks.map (fun i => ((files.sites.getD i default).sid, (files.sites.getD i default).stype)) := by
+  simp [buildWorld, buildSite, Function.comp_def]
+
+/-- distinct rows of a file with distinct site ids give distinct sites -/
+theorem site_ids_distinct (tb : Tables) (methods : List String) (G : Dict String) (Gm : Dict MKey)
+    (files : Files) (picks : List Nat) (n : Nat) (h : ValidPicks files.sites.length n picks)
+    (hfile : (files.sites.map (·.sid)).Nodup) :
+    ((buildWorld tb methods G Gm files picks).map (·.sid)).Nodup := by
+  have hids : (buildWorld tb methods G Gm files picks).map (·.sid)
+      = picks.map (fun i => (files.sites.map (·.sid)).getD i (default : SiteRow).sid) := by
+    simp only [buildWorld, List.map_map]
+    apply List.map_congr_left
+    intro i _
+    simp only [Function.comp, buildSite, List.getD_eq_getElem?_getD, List.getElem?_map]
+    cases files.sites[i]? <;> rfl
+  rw [hids, List.nodup_iff_pairwise_ne, List.pairwise_map]
+  refine List.Pairwise.imp_of_mem ?_ h.2.1
+  intro a b ha hb hab heq
+  have hla : a < (files.sites.map (·.sid)).length := by simpa using h.2.2 a ha
+  have hlb : b < (files.sites.map (·.sid)).length := by simpa using h.2.2 b hb
+  exact hab ((List.getD_inj hla hlb hfile).mp heq)
+
+/-- named equipment: one group per name of the site's (or its type's) equipment list, in order -/
+theorem structure_groups_named (tb : Tables) (methods : List String) (G : Dict String) (Gm : Dict MKey)
+    (files : Files) (s : SiteRow) (raw : String)
+    (hspec : equipFor files s (findType files s) = .named raw) :
+    (buildSite tb methods G Gm files s).groups.map (·.gid) = splitEquip raw := by
+  rw [buildSite_groups, List.map_map]
+  unfold groupsOf
+  rw [hspec]
+  simp [siteGroups, Function.comp_def, groupAt, buildGroup]
+
+/-- numeric equipment `k`: `max k 1` placeholder groups numbered from 0 -/
+theorem structure_groups_numeric (tb : Tables) (methods : List String) (G : Dict String) (Gm : Dict MKey)
+    (files : Files) (s : SiteRow) (k : Nat)
+    (hspec : equipFor files s (findType files s) = .count k) :
+    (buildSite tb methods G Gm files s).groups.map (·.gid)
+      = if k = 0 then ["0"] else (List.range k).map toString := by
+  rw [buildSite_groups, List.map_map]
+  unfold groupsOf
+  rw [hspec]
+  by_cases hk : k = 0
+  · simp [siteGroups, hk, Function.comp_def, groupAt, buildGroup]
+  · simp [siteGroups, hk, Function.comp_def, groupAt, buildGroup]
+
+/-- per group: for every component column of the equipment row, as many components as its count,
+named `<type>_<index>` -/
+theorem structure_components (tb : Tables) (methods : List String) (files : Files) (G : Dict String)
+    (Gm : Dict MKey) (T : Option Row) (S : Row) (gid : String) (E : Row) (nG : Nat) :
+    (groupAt tb methods files G Gm T S gid E nG).comps.map (·.cid)
+      = (cleanedCells tb E).flatMap (fun c =>
+          (List.range (cellCount c.2)).map (fun i => compType c.1 ++ "_" ++ toString i))
+    ∧ (groupAt tb methods files G Gm T S gid E nG).comps.length = totalComponents tb E := by
+  constructor
+  · rw [groupAt_comps, List.map_flatMap]
+    simp [Function.comp_def]
+  · rw [groupAt_comps, length_flatMap_range]
+    rfl
+
+/-- per component of a user-defined type: one source per row of the sources file whose `component`
+column names the type, in file order, each built from that row -/
+theorem structure_sources_file (tb : Tables) (methods : List String) (files : Files) (ty : String)
+    (d : Dict String) (m : Dict MKey) (rows : List SrcRow) (hrows : files.sources = some rows)
+    (h1 : ty ≠ compType tb.placeholderBoth) (h2 : ty ≠ compType tb.placeholderRep)
+    (h3 : ty ≠ compType tb.placeholderNonRep) :
+    componentSources tb methods files ty d m
+      = (rows.filter (fun r => r.comp = ty)).map (fun r => sourceEff tb methods r.sid r.rep r.cells d m) := by
+  simp [componentSources, h1, h2, h3, hrows]
+
+/-- placeholder components: a repairable and a non-repairable source, or one of them, by kind -/
+theorem structure_sources_placeholder (tb : Tables) (methods : List String) (files : Files)
+    (d : Dict String) (m : Dict MKey)
+    (hd : compType tb.placeholderRep ≠ compType tb.placeholderBoth
+        ∧ compType tb.placeholderNonRep ≠ compType tb.placeholderBoth
+        ∧ compType tb.placeholderNonRep ≠ compType tb.placeholderRep) :
+    (componentSources tb methods files (compType tb.placeholderBoth) d m).map (fun s => (s.sid, s.rep))
+        = [(compType tb.placeholderRep, true), (compType tb.placeholderNonRep, false)]
+    ∧ componentSources tb methods files (compType tb.placeholderRep) d m
+        = [sourceEff tb methods (compType tb.placeholderRep) true [] d m]
+    ∧ componentSources tb methods files (compType tb.placeholderNonRep) d m
+        = [sourceEff tb methods (compType tb.placeholderNonRep) false [] d m] := by
+  refine ⟨?_, ?_, ?_⟩
+  · simp [componentSources, sourceEff]
+  · simp [componentSources, hd.1]
+  · simp [componentSources, hd.2.1, hd.2.2]
+
+/-- table obligation: the three placeholder equipment names are component columns (not dropped by the
+cleaning) and give the three distinct component types the source creation distinguishes -/
+theorem tables_placeholder_names :
+    (∀ nm ∈ [tables.placeholderBoth, tables.placeholderRep, tables.placeholderNonRep], ∀ q : Rat,
+        cleanedCells tables [(nm, .num q)] = [(nm, .num q)]) ∧
+    compType tables.placeholderBoth = "Placeholder" ∧ compType tables.placeholderRep = "Placeholder_Rep" ∧
+    compType tables.placeholderNonRep = "Placeholder_NonRep" := by
+  refine ⟨?_, by decide, by decide, by decide⟩
+  intro nm hnm q
+  have hk : (tables.eqCleanPlain.contains nm = false) ∧
+      (tables.eqCleanMeth.any (fun p => hasInfix p nm) = false) := by
+    revert nm
+    decide
+  simp [cleanedCells, hk.1, hk.2]
+
+/-- the number of placeholder components of a site with numeric equipment: `⌈rate·730⌉` split over
+`k` groups (`⌈count/k⌉` each) -/
+theorem structure_placeholder_counts (tb : Tables) (files : Files) (d : Dict String) (k : Nat) :
+    (siteGroups tb files (.count k) d).map (fun g => g.2.1.map (fun c => cellCount c.2))
+      = (let cnt := placeholderCount (placeholderKind (d.get tb.siteRepEpr) (d.get tb.siteNonRepEpr))
+                      (d.get tb.siteRepEpr) (d.get tb.siteNonRepEpr)
+         if k = 0 then [[cnt]]
+         else List.replicate k [(((cnt : Rat) / (k : Rat)).ceil.toNat)]) := by
+  have hfl : ∀ n : Nat, cellCount (.num (n : Rat)) = n := by
+    intro n
+    simp only [cellCount]
+    have : ((n : Rat)).floor = (n : Int) := by
+      have := Rat.floor_intCast (n : Int)
+      simpa using this
+    rw [this]; rfl
+  by_cases hk : k = 0
+  · simp [siteGroups, hk, hfl]
+  · simp only [siteGroups, hk, if_false, List.map_map]
+    rw [List.eq_replicate_iff]
+    constructor
+    · simp
+    · intro b hb
+      simp only [List.mem_map, Function.comp] at hb
+      obtain ⟨i, _, hi⟩ := hb
+      rw [← hi]
+      simp [hfl]
 
 end LdarModel.Propagate
